@@ -550,6 +550,14 @@ class Interp:
             return False, ("capacity atom %s" % (st.get_iv(c),)) if is_int(c) else None
         return False, cap
 
+    def _max_below_cap(self, st, region, m, a, other_ok):
+        """m = max(a, b) of two prefix bounds of a heap buffer: if a <= capacity and b <= capacity (other_ok) then m <= capacity"""
+        if region[0] != "heap" or not other_ok:
+            return
+        c = st.env.get(tuple(region[1]) + (("g", "vcap"),))
+        if is_int(c) and is_int(a) and st.diff_le(a, c, 0):
+            st.add_fact(m, c, 0)
+
     def buf_init_key(self, region):
         # ghost "initialised prefix" of an array cell lives in env as a pseudo-field, so it moves with the value
         return tuple(region[1]) + (("g", "init"),) if region[0] in ("loc", "heap") else None
@@ -599,6 +607,7 @@ class Interp:
                                 st.env[ik] = m
                                 st.add_fact(init, m, 0)
                                 st.add_fact(end, m, 0)
+                                self._max_below_cap(st, region, m, init, ok)
                             ps, pe = st.env.get(pk_s), st.env.get(pk_e)
                             cur = st.env.get(ik)
                             if is_int(ps) and is_int(pe) and st.diff_le(ps, cur, 0):
@@ -610,6 +619,7 @@ class Interp:
                                     st.env[ik] = m2
                                     st.add_fact(cur, m2, 0)
                                     st.add_fact(pe, m2, 0)
+                                    self._max_below_cap(st, region, m2, cur, self.within_cap(st, region, pe, st.get_iv(pe)[1])[0])
                                 st.env.pop(pk_s, None)
                                 st.env.pop(pk_e, None)
                         elif st.env.get(pk_s) is None:
